@@ -110,7 +110,7 @@ def _compare_maps(run, key, got, exp, skip, assume, names, case, finding, sample
         eqs.append(S.const(got[k]).t == S.const(exp[k]).t)
     k0 = sorted(gk)[0]
     sample = {"structure": case, "cell": list(k0), "impl": str(S.const(got[k0]).t)[:140], "oracle": str(S.const(exp[k0]).t)[:140]}
-    r, m = run.prove(key, z3.And(*eqs), assume, timeout_ms=30000, sample=sample)
+    r, m = run.prove(key, z3.And(*eqs), assume, timeout_ms=30000, sample=sample, nl=True)
     if r == "unsat":
         run.ok(key)
         return True
